@@ -12,5 +12,26 @@ def run(tier):
     if isinstance(res, int):
         return res
     ctx, cases, mo, io = res
-    ctx.assumptions.append("transparent wrappers (metrics, annotation, portfolio stop, nondeterminism check) are exercised only through Runner's MetricsScheduler (always present) and the nondeterminism checker in C01; they are not modelled in Coq")
+    # transparent wrappers: the same case with the scripted scheduler inside AnnotationScheduler / Box<dyn Scheduler> must give
+    # the inner scheduler exactly the same arguments and the run exactly the same trace (MetricsScheduler is always present:
+    # Runner wraps every scheduler in it; the nondeterminism checker is exercised by C01's `nondet` runs)
+    sub = [c for c in cases if c.startswith("prog ")][:: max(1, len(cases) // (600 if tier == "quick" else 6000))]
+    wcases, base = [], []
+    for k, c in enumerate(sub):
+        w = "ann" if k % 2 == 0 else "box"
+        wcases.append("wrapped %s %s" % (w, c[5:]))
+        base.append(io[cases.index(c)])
+    wo = ctx.run_impl("prog", wcases)
+    ctx.evaluations += len(wcases)
+    nw = 0
+    for wc, b, o in zip(wcases, base, wo):
+        if o != b:
+            nw += 1
+            if nw <= 3:
+                x, y = b.split(" "), o.split(" ")
+                pos = next((i for i in range(min(len(x), len(y))) if x[i] != y[i]), min(len(x), len(y)))
+                ctx.violation({"layer": "prog", "cases": [wc], "implementation_answer": o[:2500], "unwrapped": b[:2500],
+                               "why": "a transparent scheduler wrapper changed the run: first difference at token %d (%s vs %s)" % (pos, x[pos] if pos < len(x) else "<end>", y[pos] if pos < len(y) else "<end>")})
+    ctx.dist("wrapped.runs", len(wcases))
+    ctx.assumptions.append("transparent wrappers are not modelled in Coq: AnnotationScheduler and Box<dyn Scheduler> are compared with the unwrapped run on the real crate, MetricsScheduler is present in every run, the nondeterminism checker is exercised by C01; PortfolioStoppableScheduler is private to the PortfolioRunner and is not exercised")
     return ctx.finish()
